@@ -57,6 +57,8 @@ Verdicts(r) ==
               THEN {<<"C11", "peak memory while executing exceeds the cost model (bytes materialised without being paid for)">>} ELSE {})
         \cup (IF Gt(FromInt(r.alloc), Add(FromInt(ALLOC_T0), MulSmall(w, ALLOC_T1)))
               THEN {<<"C11", "total allocation while executing exceeds the cost model">>} ELSE {})
+        \* coarse watchdog (the only wall-clock clause): 10 s for a covenant whose weight is below 10^6; honest runs take milliseconds
+        \cup (IF r.ms > 10000 /\ Lt(w, FromInt(1000000)) THEN {<<"C11", "executing a covenant of weight below 10^6 took more than 10 seconds">>} ELSE {})
         \cup (IF r.work > WEIGH_C1 * n * n + 16 THEN {<<"C11", "weighing cost super-quadratic in program length">>} ELSE {})
 
 Init == l = 1
